@@ -21,6 +21,9 @@ TIE = {'core.get_n_best / Plurality and every evaluator ending in it; HighestAve
            'models shared with C09 / C01 / C02 / C03 (correspondence there); shape theorems here',
        'Copeland / Schulze / MinimaxCondorcet / RankedPairs / KemenyYoung; ScoreVoting / MajorityJudgment / STAR; ProportionalApproval / SequentialProportionalApproval; PreferenceAddition':
            'models shared with C05 / C12 / C17 (correspondence there); shape theorems here (Proofs/Shape2_proofs.v), and their outputs are judged by the extracted checker as well',
+       'sequential.Baldwin (+ Baldwin._compute_negative_scores = the negated RankedToPositionalVotes.convert)': 'Model/Elimination.v, wire units 111 / 112: correspondence stream baldwin (extracted model vs the implementation: result lists in order, score dictionaries in order and value; candidates with equal scores compared as a set where a shared rank makes the order a frozenset iteration order); shape theorems C08_shape_baldwin / C08_shape_positional',
+       'convert.ApprovalToSimpleVotes in front of plurality': 'Model/ApprovalSimple.v, wire unit 113: correspondence stream approval-simple (dictionaries as sets of items, exact values); theorem C08_shape_approval',
+       'sequential.Benham / TidemanAlternative; threshold selectors, bracketers, open lists, QuotaSelector; CondorcetWinner / SmithSet / SchwartzSet': 'models shared with C05 / C16 (correspondence there); shape theorems here (Proofs/Shape3_proofs.v, ShapeElim_proofs.v, TidemanIndex_proofs.v)',
        'every other evaluator of harness/evalreg.py': 'outputs judged by the extracted verified checker sel_shape_ok (selections) / declarative clauses (distributions)'}
 RULE = ('sweep: for each of the 65 evaluator configurations (63 of harness/evalreg.py + AllocatedScoreDistributor hare / droop; simple / approval / ranked incl. shared ranks / score / pairwise votes) random profiles '
         'with positive total weight, every n in 1..#candidates (sampled); selection results are encoded and judged by the extracted checker '
@@ -32,9 +35,11 @@ RULE = ('sweep: for each of the 65 evaluator configurations (63 of harness/evalr
         'once for r >= 2 seats with more than r members: allocated score; fewer than n distinct plain candidates: Bucklin / Oklahoma / STAR); an '
         'exception other than VotingSystemError / NotImplementedError is a violation for the families the property names (plurality, highest '
         'averages, largest remainder, transferable vote, Schulze, Copeland, minimax, positional, approval, score). model-shape: the checker on the '
-        'extracted get_n_best model (sanity of the wire encoding). non-trivial = result contains a tie or a refusal; distinct by case hash')
-PARTIAL = ['shape of evaluators without a Coq model (Condorcet family beyond Copeland, PAV/SPAV, score family, Bucklin, Benham, Tideman, Baldwin, '
-           'thresholds) is decided per explored case by the verified checker, not proved for all inputs',
+        'extracted get_n_best model (sanity of the wire encoding). baldwin: differential of the extracted Model/Elimination.v against sequential.Baldwin (six rank scorers; 1..6 candidates, bullet / truncated ballots, shared ranks, zero weights and weights up to 10^20, symmetrised profiles, tied losers ranked together at the bottom, one all-inclusive shared rank, an empty shared rank (ValueError on both sides), n in {0, 1, k-1, k, k+1, random}; 12 % of the cases compare the negative-score dictionary itself) with the declarative clause of C08_shape_baldwin evaluated on the implementation answer (well-formed profile, 1 <= n <= candidates: exactly n entries in shape, never an exception). sweeps: an exception other than VotingSystemError / NotImplementedError is also a violation for Baldwin, for Benham (one seat) and TidemanAlternative on a profile with two candidates (theorems C08_shape_baldwin / benham / tideman_outcomes), except the TypeError of TidemanAlternative for n >= 2 (known finding C08-tideman-multiseat). approval-simple: the extracted Model/ApprovalSimple.v against ApprovalToSimpleVotes(split).convert on random / symmetrised approval profiles with blank ballots and zero weights. non-trivial = result contains a tie or a refusal; distinct by case hash')
+PARTIAL = ['no shape theorem (decided per explored case by the verified checker): the first-preference composite, '
+           'allocated score (shape clause refuted: C08_shape_allocated_score_refuted); Benham / Tideman / Baldwin / positional theorems are over well-formed profiles '
+           '(no candidate twice on a ballot, no negative weight resp. no empty shared rank) with a pairwise contest; TidemanAlternative fills one seat only '
+           '(C08_shape_tideman_multiseat_refuted); the library has no Coombs class',
            'wrapper classes that need components (ByConstituency, Conditioned, TieBreaking, MultistageDistributor, PartyListEvaluator, ...) are swept by C14, '
            'BiproportionalEvaluator by C07, open-list evaluators by C16, seeded random selectors by C18']
 TRUSTED = []
@@ -230,6 +235,17 @@ def judge_error(e, r, case):
     case['_class'] = 'crash:' + common.E_NAME.get(code, str(code))
     if e['family'] in LISTED:
         return 'undeclared exception %s' % (r[2],)
+    if e['name'] == 'baldwin':
+        # C08_shape_baldwin: on a well-formed profile Baldwin always answers (the registry's ranked profiles are well-formed)
+        return 'Baldwin raises %s although it has an answer for every well-formed profile' % (r[2],)
+    if e['name'] in ('benham', 'tideman_alt'):
+        # C08_shape_benham / C08_shape_tideman(_outcomes): with a pairwise contest (these profiles have no shared ranks: two
+        # candidates suffice) the only outcome besides an answer is NotImplementedError - and, for TidemanAlternative with
+        # n_seats >= 2, the TypeError of the unimplemented further tiers (known finding C08-tideman-multiseat).  A single
+        # candidate makes both raise IndexError (known finding C05-hybrid-empty-pairwise, property C05): not judged here.
+        # Benham is a single-winner rule by construction (assert n_seats == 1): only one-seat calls are judged.
+        if len(evalreg.candidates_of(e['vtype'], case['profile'])) >= 2 and (e['name'] == 'tideman_alt' or case['n'] == 1):
+            return '%s raises %s on a profile with a pairwise contest' % (e['name'], r[2])
     return None        # other families: the declared-refusal clause does not name them (counted in the distribution)
 
 
@@ -276,6 +292,8 @@ def known_class(c, io, mo):
         return 'C08-star-short'
     if ev.startswith('lr_') and cls in ('crash:ZERODIV', 'nonpositive') and lr_capbranch(c):
         return 'C08-lr-capbranch'
+    if ev == 'tideman_alt' and cls == 'crash:TYPE' and c.get('n', 1) >= 2 and len(evalreg.candidates_of('ranked', c['profile'])) >= 2:
+        return 'C08-tideman-multiseat'
     return None
 
 
@@ -301,6 +319,223 @@ def model_shape(ctx, stream, count, rng):
             bad += 1
             ctx.broken('checker', 'verified checker rejects a get_n_best model result: %s %s -> %s' % (p, n, o))
     ctx.streams[stream] = dict(cases=len(cases), deviations=bad)
+
+
+# ------------------------------------------------------------------ Baldwin against Model/Elimination.v (units 111 / 112)
+SCORERS = [('borda0', [1, 0]), ('borda1', [1, 1]), ('dowdall', [2]), ('geometric2', [3, 2]), ('modified', [4]), ('fixedtop2', [5, 2])]
+
+
+def mk_scorer(code):
+    import votelib.component.rankscore as rs
+    k = code[0]
+    return {1: lambda: rs.Borda(base=code[1]), 2: lambda: rs.Dowdall(), 3: lambda: rs.Geometric(code[1]), 4: lambda: rs.ModifiedBorda(),
+            5: lambda: rs.FixedTop(code[1])}[k]()
+
+
+def bald_line(c):
+    if c['unit'] == 'neg_scores':
+        return '%d (%s %s)' % (BLOCK['C08'] + 2, sx(c['scorer']), sx(c['profile']))
+    return '%d (%s %s %d)' % (BLOCK['C08'] + 1, sx(c['scorer']), sx(c['profile']), c['n'])
+
+
+def bald_eval(c):
+    import votelib.evaluate.sequential as seq, votelib.convert as conv
+    ev = seq.Baldwin(conv.RankedToPositionalVotes(rank_scorer=mk_scorer(c['scorer'])))
+    py = evalreg.to_python('ranked', c['profile'])
+    if c['unit'] == 'neg_scores':
+        return ev, ev._compute_negative_scores(py)
+    return ev, ev.evaluate(py, c['n'])
+
+
+def bald_impl(c):
+    import votelib.evaluate.core as core
+    _ev, r = bald_eval(c)
+    if c['unit'] == 'neg_scores':
+        return common.ok([[cnum(k), common.q(v)] for k, v in r.items()])
+    return common.ok([sorted(cnum(x) for x in e) if isinstance(e, core.Tie) else cnum(e) for e in r])
+
+
+def bald_canon(c, wire):
+    v = common.parse_sx(wire)
+    if v[0] != 0:
+        return ('err', v[1])
+    # the iteration order of a frozenset (shared rank) is not specified: where the profile has shared ranks, candidates with
+    # equal scores may come in either order - the dictionary is compared as a set of items, the selection as plain winners
+    # (sorted) followed by its tie objects; without shared ranks the exact order is compared
+    shared = evalreg.has_shared(c['profile'])
+    if c['unit'] == 'neg_scores':
+        items = tuple((k, common.unq(x)) for k, x in v[1])
+        return ('ok', tuple(sorted(items)) if shared else items)
+    sel = tuple(tuple(sorted(e)) if isinstance(e, list) else e for e in v[1])
+    if shared:
+        sel = tuple(sorted(x for x in sel if not isinstance(x, tuple))) + tuple(x for x in sel if isinstance(x, tuple))
+    return ('ok', sel)
+
+
+def wf_ranked(prof):
+    """no candidate twice on a ballot, no empty shared rank, no negative weight (the hypotheses of C08_shape_baldwin)"""
+    for b, w in prof:
+        flat = [x for it in b for x in (it if isinstance(it, list) else [it])]
+        if len(set(flat)) != len(flat) or any(isinstance(it, list) and not it for it in b) or common.q(w) < 0:
+            return False
+    return True
+
+
+def py_shape(cands, n, val):
+    """the declarative clause of Proofs/Shape_proofs.v sel_shape on a canonical selection (ties = sorted tuples)"""
+    plain = [x for x in val if not isinstance(x, tuple)]
+    ties = [x for x in val if isinstance(x, tuple)]
+    if len(val) != n or len(set(plain)) != len(plain) or any(x not in cands for x in plain):
+        return False
+    for t in set(ties):
+        if len(set(t)) != len(t) or any(x not in cands or x in plain for x in t) or ties.count(t) >= len(t):
+            return False
+    return True
+
+
+_BALD_DIST = {}
+
+
+def bald_spec(c, io, mo):
+    """C08_shape_baldwin on the implementation's own answer: a well-formed profile and 1 <= n <= candidates -> a well-shaped
+    selection of exactly n entries, never an exception"""
+    v = common.parse_sx(io)
+    key = 'baldwin-outcome:' + ('err-' + common.E_NAME.get(v[1], str(v[1])) if v[0] != 0 else c['unit'] + ('-tie' if any(isinstance(e, list) for e in v[1]) and c['unit'] == 'baldwin' else ''))
+    _BALD_DIST[key] = _BALD_DIST.get(key, 0) + 1
+    if c['unit'] != 'baldwin' or not wf_ranked(c['profile']):
+        return None
+    cands = evalreg.candidates_of('ranked', c['profile'])
+    if not 1 <= c['n'] <= len(cands):
+        return None
+    r = bald_canon(c, io)
+    if r[0] != 'ok':
+        c['_class'] = 'crash:' + common.E_NAME.get(r[1], str(r[1]))
+        return 'Baldwin raises %s on a well-formed profile' % common.E_NAME.get(r[1], str(r[1]))
+    if not py_shape(cands, c['n'], list(r[1])):
+        c['_class'] = shape_class(cands, c['n'], list(r[1]))
+        return 'Baldwin: selection %s does not have the shape of %d seats over candidates %s' % (list(r[1]), c['n'], cands)
+    return None
+
+
+def bald_nontrivial(c):
+    return c['unit'] == 'baldwin' and c.get('_style') in ('sym', 'tiedlosers', 'alltied')
+
+
+def gen_bald_ballot(rng, ids, shared_p):
+    perm = ids[:]
+    rng.shuffle(perm)
+    r = rng.random()
+    if r < 0.15:
+        perm = perm[:1]
+    elif r < 0.5:
+        perm = perm[:rng.randint(1, len(perm))]
+    out, i = [], 0
+    while i < len(perm):
+        if rng.random() < shared_p and i + 1 < len(perm):
+            k = rng.randint(2, min(3, len(perm) - i))
+            out.append(sorted(perm[i:i + k]))
+            i += k
+        else:
+            out.append(perm[i])
+            i += 1
+    return out
+
+
+def gen_baldwin(rng, count):
+    import json
+    for _ in range(count):
+        m = 1 if rng.random() < 0.03 else rng.choice([2, 3, 3, 4, 4, 5, 6])
+        ids = list(range(1, m + 1))
+        shared_p = rng.choice([0, 0, 0.2, 0.4])
+        style = rng.random()
+        prof = {}
+        tag = 'random'
+        if style < 0.12 and m >= 3:
+            # two or three candidates always ranked together at the bottom (tied losers), the others above them in turn
+            tag = 'tiedlosers'
+            k = rng.randint(2, m - 1)
+            low, top = ids[:k], ids[k:]
+            for _b in range(rng.randint(1, 4)):
+                t = top[:]
+                rng.shuffle(t)
+                b = t + ([sorted(low)] if rng.random() < 0.7 else [])
+                prof[json.dumps(b)] = prof.get(json.dumps(b), 0) + rng.randint(1, 3)
+        elif style < 0.2:
+            tag = 'alltied'
+            b = [sorted(ids)] if m > 1 else ids
+            prof[json.dumps(b)] = rng.randint(0, 3)
+        else:
+            wmax = rng.choice([1, 2, 5, 5, 10 ** 20])
+            for _b in range(rng.randint(1, 7)):
+                b = gen_bald_ballot(rng, ids, shared_p)
+                prof[json.dumps(b)] = prof.get(json.dumps(b), 0) + rng.randint(0 if rng.random() < 0.08 else 1, wmax)
+        profile = [[json.loads(b), w] for b, w in prof.items()]
+        if tag == 'random' and rng.random() < 0.45:
+            profile = symmetrise(rng, 'ranked', profile)
+            tag = 'sym'
+        if rng.random() < 0.02:
+            # malformed: an empty shared rank in front (more ranks than candidates for a full ballot: ValueError of Borda)
+            profile = [[[[]] + b, w] for b, w in profile]
+            tag = 'emptyrank'
+        k = len(evalreg.candidates_of('ranked', profile))
+        sc = SCORERS[0][1] if rng.random() < 0.6 else rng.choice(SCORERS)[1]
+        if rng.random() < 0.12:
+            yield dict(kind='baldwin', unit='neg_scores', scorer=sc, profile=profile, n=0, _style=tag)
+        else:
+            n = rng.choice([rng.randint(1, max(1, k)), rng.randint(1, max(1, k)), max(1, k - 1), k, 0, k + 1, 1])
+            yield dict(kind='baldwin', unit='baldwin', scorer=sc, profile=profile, n=n, _style=tag)
+
+
+BALD_KW = dict(canon=bald_canon, nontrivial=bald_nontrivial, spec=bald_spec, known_class=None, limit=20)
+
+
+# ------------------------------------------------------------------ ApprovalToSimpleVotes against Model/ApprovalSimple.v (unit 113)
+def appr_line(c):
+    return '%d (%d %s)' % (BLOCK['C08'] + 3, 1 if c['split'] else 0, sx(c['profile']))
+
+
+def appr_impl(c):
+    import votelib.convert as conv
+    r = conv.ApprovalToSimpleVotes(split=c['split']).convert(evalreg.to_python('approval', c['profile']))
+    return common.ok([[cnum(k), common.q(v)] for k, v in r.items()])
+
+
+def appr_canon(c, wire):
+    v = common.parse_sx(wire)
+    if v[0] != 0:
+        return ('err', v[1])
+    # the candidates of one ballot enter the dictionary in the iteration order of a frozenset: compared as a set of items
+    return ('ok', tuple(sorted((k, common.unq(x)) for k, x in v[1])))
+
+
+def appr_spec(c, io, mo):
+    """C08_shape_approval needs: one key per approved candidate (so that n <= candidates can be filled)"""
+    r = appr_canon(c, io)
+    if r[0] != 'ok':
+        return 'ApprovalToSimpleVotes raises %s' % common.E_NAME.get(r[1], str(r[1]))
+    keys = [k for k, _ in r[1]]
+    cands = evalreg.candidates_of('approval', c['profile'])
+    if sorted(keys) != sorted(cands):
+        return 'converted dictionary has keys %s, the ballots approve %s' % (keys, cands)
+    return None
+
+
+def gen_approval(rng, count):
+    for _ in range(count):
+        prof = evalreg.gen_profile(rng, 'approval')
+        tag = 'random'
+        if rng.random() < 0.4:
+            prof = symmetrise(rng, 'approval', prof)
+            tag = 'sym'
+        if rng.random() < 0.1:
+            prof = prof + [[[], rng.randint(1, 3)]]      # a blank ballot (split: skipped, not divided by zero)
+            tag = 'blank'
+        if rng.random() < 0.1:
+            prof = [[b, 0] for b, _w in prof[:1]] + prof[1:]
+        yield dict(kind='approval-simple', split=rng.random() < 0.5, profile=prof, _style=tag)
+
+
+APPR_KW = dict(canon=appr_canon, nontrivial=lambda c: c['split'], spec=appr_spec, known_class=None, limit=10)
 
 
 def coverage(ctx):
@@ -353,13 +588,29 @@ def replay_case(ctx, c, stream):
 
 def explore(ctx, widen=1):
     rng = ctx.rng
-    for c in corpus():
-        replay_case(ctx, c, 'corpus')
+    cp = list(corpus())
+    for c in cp:
+        if c.get('kind') != 'baldwin':
+            replay_case(ctx, c, 'corpus')
+    ctx.differential('corpus-baldwin', [c for c in cp if c.get('kind') == 'baldwin'], bald_line, bald_impl, **BALD_KW)
     model_shape(ctx, 'model-shape', ctx.n(300, 3000), rng)
     sweep(ctx, 'sweep', ctx.n(5000, 80000) * widen, rng)
     sweep(ctx, 'sym-sweep', ctx.n(5000, 60000) * widen, rng, gen_symmetric)
+    cases = list(gen_baldwin(rng, ctx.n(4000, 60000) * widen))
+    for c in cases:
+        ctx.dist['baldwin:' + c['_style']] += 1
+    ctx.differential('baldwin', cases, bald_line, bald_impl, **BALD_KW)
+    for k, v in _BALD_DIST.items():
+        ctx.dist[k] += v
+    ctx.differential('approval-simple', list(gen_approval(rng, ctx.n(1500, 20000) * widen)), appr_line, appr_impl, **APPR_KW)
     coverage(ctx)
 
 
 def replay(ctx, case, stream=None):
+    if case.get('kind') == 'baldwin':
+        ctx.differential('replay', [case], bald_line, bald_impl, **BALD_KW)
+        return
+    if case.get('kind') == 'approval-simple':
+        ctx.differential('replay', [case], appr_line, appr_impl, **APPR_KW)
+        return
     replay_case(ctx, case, 'replay')
